@@ -926,5 +926,17 @@ func keyFloatText(f float64) string {
 	if err != nil {
 		return fmt.Sprintf("%g", f)
 	}
+	// the table is taken from the implementation, so it is checked against what the theorems
+	// assume of it (fmt_g_okb: the text parses back to the same float64), on every float met
+	if !keyFloatChecked[f] {
+		keyFloatChecked[f] = true
+		if g, perr := strconv.ParseFloat(s, 64); (perr != nil || g != f) && !math.IsNaN(f) {
+			globalFindings = append(globalFindings, Finding{Signature: "key/float-text-does-not-denote-the-value",
+				What:  fmt.Sprintf("KeyValueAsString(%v) = %q, which does not parse back to the same float64", f, s),
+				Input: map[string]interface{}{"float64": strconv.FormatFloat(f, 'g', -1, 64), "text": s}})
+		}
+	}
 	return s
 }
+
+var keyFloatChecked = map[float64]bool{}
